@@ -456,18 +456,18 @@ theorem mergeListsMeld_generated_eq_model (o : ListStrategy) (f : List Node → 
   have emn : GoDom.intMin (GoDom.size l1) (GoDom.size l2) = ((min l1.length l2.length : Nat) : Int) := by
     simp only [GoDom.intMin, GoDom.size]; omega
   simp only [FuncsDom.mergeListsMeld, emx, emn, GoDom.newList]
-  have e1 := meld_loop1_eq (max l1.length l2.length) (((max l1.length l2.length : Nat) : Int) + 1).toNat [] 0
-    (by omega) (by omega)
+  have e1 := meld_loop1_eq (max l1.length l2.length) (((GoDom.size l1) + (GoDom.size l2)) + 1).toNat [] 0
+    (by omega) (by simp only [GoDom.size]; omega)
   simp only [Int.natCast_zero, List.nil_append, Nat.sub_zero] at e1
   rw [e1]
   obtain ⟨r2, e2, len2, get2⟩ := meld_loop2_eq o f l1 l2 hf h1 h2 (min l1.length l2.length) (by omega) (by omega)
-    (((min l1.length l2.length : Nat) : Int) + 1).toNat (List.replicate (max l1.length l2.length) Node.null) 0
-    (by omega) (by simp; omega) (by omega)
+    (((GoDom.size l1) + (GoDom.size l2)) + 1).toNat (List.replicate (max l1.length l2.length) Node.null) 0
+    (by omega) (by simp; omega) (by simp only [GoDom.size]; omega)
   simp only [Int.natCast_zero] at e2
   simp only [Go.Res.ok_bind, e2]
   obtain ⟨r3, e3, len3, get3⟩ := meld_loop3_eq l1 l2 (max l1.length l2.length)
-    (((max l1.length l2.length : Nat) : Int) + 1).toNat r2 (min l1.length l2.length)
-    (by omega) (by rw [len2]; simp) (by omega)
+    (((GoDom.size l1) + (GoDom.size l2)) + 1).toNat r2 (min l1.length l2.length)
+    (by omega) (by rw [len2]; simp) (by simp only [GoDom.size]; omega)
   simp only [e3, Go.Res.ok_bind]
   show Go.Res.ok r3 = _
   congr 1
